@@ -25,6 +25,8 @@ type e2eSpec struct {
 	probes   []string // shapes aimed at this property's mechanisms: run first, before the corpus
 }
 
+var slowE2E sync.Mutex
+
 type e2eDis struct {
 	p, api, want, got, strat string
 	h                        []byte
@@ -116,6 +118,13 @@ func runE2E(r *Report, known []Finding, sp e2eSpec) {
 					for _, o := range sp.obs {
 						want := o.Fn(std, h)
 						got := guard(10*time.Second, func() string { return o.Fn(cx, h) })
+						if got == "TIMEOUT" {
+							// slow is not wrong: repeated alone with a long deadline (the workers share the machine); a call that still does
+							// not come back is reported as it is
+							slowE2E.Lock()
+							got = guard(180*time.Second, func() string { return o.Fn(cx, h) })
+							slowE2E.Unlock()
+						}
 						if sp.nontriv != nil && sp.nontriv(want) {
 							nontriv++
 						}
